@@ -22,6 +22,8 @@ def run_variant(proj, root, label, extra_opts=(), env=None, sources=None, timeou
         r = {"label": label, "rc": rc, "out": out, "err": err, "hdr": None, "events": [], "args": args}
     r["findings"] = projgen.parse_findings(r["err"])
     r["stray"] = projgen.stray_output(r["err"])
+    # a run that could not start says so on stdout ("cppcheck: error: ..."): keep it visible in the observation
+    r["stray"] += ["<stdout>" + l for l in (r.get("out") or "").splitlines() if l.startswith("cppcheck: error")]
     return r
 
 
